@@ -5,6 +5,7 @@
   program>` (so a pair that is equal but wrong is caught too).
 -/
 import Arrai.C08.Source
+import Arrai.C08.Rewrite
 
 namespace Arrai.C08
 open Impl
@@ -330,27 +331,7 @@ def dotFresh (fresh : String) : Ast → Option Ast
     if isDotForm (.opDot op l g) then some (.opFn op l (.ident fresh) (renameVar "." fresh g)) else none
   | _ => none
 
-/-- capture-avoiding substitution of the closed literal `v` for the free occurrences of `x` -/
-def substA (x : String) (v : Ast) : Ast → Ast
-  | .ident y => if y = x then v else .ident y
-  | .let_ p e b => .let_ p (substA x v e) (if (patVars p).contains x then b else substA x v b)
-  | .opFn op l p b => .opFn op (substA x v l) p (if (patVars p).contains x then b else substA x v b)
-  | .opDot op l (.fn p b) =>
-    .opDot op (substA x v l) (.fn p (if (patVars p).contains x then b else substA x v b))
-  | .opDot op l g => .opDot op (substA x v l) (if x = "." then g else substA x v g)
-  | .fn p b => .fn p (if (patVars p).contains x then b else substA x v b)
-  | .call g a => .call (substA x v g) (substA x v a)
-  | .neg e => .neg (substA x v e)
-  | .bin op a b => .bin op (substA x v a) (substA x v b)
-  | .and_ a b => .and_ (substA x v a) (substA x v b)
-  | .or_ a b => .or_ (substA x v a) (substA x v b)
-  | .cond es => .cond (substA x v es)
-  | .coll c es => .coll c (substA x v es)
-  | .paren e => .paren (substA x v e)
-  | .cons n k val r =>
-    .cons n (if k == .ident "_" then k else substA x v k) (substA x v val) (substA x v r)
-  | a => a
-
+/-- `let x = v; b`  =  `b[x := v]` (`substA`, Arrai/C08/Rewrite.lean) for a closed literal `v` -/
 def substLet : Ast → Option Ast
   | .let_ (.ident x) v b => if x != "_" && isLitAst v then some (substA x v b) else none
   | _ => none
